@@ -12,6 +12,7 @@
   * `primSim_ct_cx`    : `encPrimsCT ⟶ encPrimsCX`  (erasure of the ghost rows and extra refusals).
 -/
 import BufrModel.Lemmas.SimComp
+import BufrModel.Lemmas.CompFactors
 import BufrModel.Lemmas.SimCanon
 import BufrModel.Lemmas.Column
 import BufrModel.Props.C05
@@ -885,12 +886,8 @@ theorem encStepCT_decStepC_sim (W rest : Bits) (L : Nat) (dd : DDesc) (col : Col
           rw [hclen, hvlen, hvl, hfl]
           simp
 
-theorem ct_encFactorC_nonempty {s : St} {v : Val} (h : encFactorC s = .ok v) : s.vals ≠ [] := by
-  intro hnil
-  unfold encFactorC at h
-  by_cases h0 : s.idx = 0
-  · simp [h0] at h
-  · simp [h0, hnil, minmaxInt, headVal, bind, Except.bind, pure, Except.pure] at h
+theorem ct_encFactorC_nonempty {s : St} {v : Val} (h : encFactorC s = .ok v) : s.vals ≠ [] :=
+  (encFactorC_ok h).2.1
 
 theorem ct_minmaxInt_replicate (i : Int) : ∀ (L : Nat),
     minmaxInt (List.replicate (L + 1) (Val.int i)) = .ok (some (i, i))
@@ -997,14 +994,9 @@ theorem primSim_ct_dec (W rest : Bits) (L : Nat) :
       exact ⟨by simp [hlen], fun b hb => by obtain ⟨_, _, rfl⟩ := List.mem_map.mp hb; rfl⟩
     unfold decFactorC
     rw [hheads, hrep]
-    cases v with
-    | int iv =>
-      simp only [bind, Except.bind, ct_minmaxInt_replicate iv L', ne_eq, not_true_eq_false, if_false]
-      simp only [List.replicate_succ, headVal]
-      exact hcount
-    | missing => cases hcount
-    | num a b => cases hcount
-    | bytes b => cases hcount
+    simp only [bind, Except.bind, sameAsFirst_replicate]
+    simp only [List.replicate_succ, headVal]
+    exact hcount
   lastValues := by
     intro i s t n l ⟨_, _, _, _, hvals, hfl, hvl⟩ h
     change encLastValuesCT n s = .ok l at h
